@@ -149,17 +149,8 @@ fn compare(i: u64, st: &mut Stats) -> CaseResult {
             if r1 { st.class("documented/no-alloc skip refuses indefinite-in-definite"); continue }
             if r2 { st.class("documented/no half: f16 item is a type error"); continue }
             if r3 { st.class("documented/no-alloc bridge: indefinite string or collect_str"); continue }
-            // a difference may also be inherited: the reference itself differs from a *third* configuration by a rule.
-            // e.g. half-less reference vs. half-less other: compare within the same half class first.
-            let same_half: Vec<usize> = present.iter().copied().filter(|x| has_half(*x) == has_half(c) && *x != c).collect();
-            if let Some(&peer) = same_half.last() {
-                let pv = &v[peer][op];
-                if pv == cv { continue } // agrees with its closest richer peer; the peer's own difference to the reference is judged on the peer
-                let r1p = !has_alloc(c) && has_alloc(peer) && has_indef_container && SKIP_FAMILY.contains(&op) && is_err_class(cv, "msg");
-                let r3p = !has_alloc(c) && has_alloc(peer) && ((op == "S:SAny" && has_indef_string && is_err_class(cv, "type")) || (op == "Z:collect_str" && is_err_class(cv, "ser")));
-                if r1p { st.class("documented/no-alloc skip refuses indefinite-in-definite"); continue }
-                if r3p { st.class("documented/no-alloc bridge: indefinite string or collect_str"); continue }
-            }
+            // every other difference to the richest configuration is a violation (the rules above are the only
+            // documented ones and each is judged directly against the reference)
             return Err(Fail::new(format!("{}/{}-vs-{}", op, CONFIGS[c].0, CONFIGS[r].0),
                 format!("operation `{}` on input {} ({}): configuration `{}` gives {} but `{}` gives {} (all: {})", op, hex(&e.bytes), e.kind, CONFIGS[c].0, cv, CONFIGS[r].0, rv,
                         present.iter().map(|x| format!("{}={}", CONFIGS[*x].0, v[*x][op])).collect::<Vec<_>>().join(" "))))
